@@ -414,7 +414,9 @@ func runC20(k *sim.Kernel, p C20Plan) {
 			for i := 0; i < p.DisposeRace && k.StepOnce(); i++ {
 			}
 			k.Deschedule(t, true)
-			k.Advance(1100 * time.Millisecond)
+			// until just after the next tick and no further: a second tick queued in the ticker's buffer would leave lal's
+			// RunLoop with two ready cases in its select (exit and tick), which the Go runtime picks between at random
+			k.Advance(time.Duration(1000-k.NowMs()%1000+50) * time.Millisecond)
 			k.Deschedule(t, false)
 			k.Fault("dispose_descheduled_over_a_tick")
 		}
